@@ -71,6 +71,7 @@ structure Ctx where
   tick : Nat
   fired : Bool
   trace : List Call      -- most recent first
+  skipCommit : Bool := false   -- the operation returns without calling Commit (deferred Rollback only)
 
 def StoreM (α : Type) := Faults → Ctx → Res α × Ctx
 
@@ -103,6 +104,8 @@ def item (k : Bytes) : StoreM Unit := call (.item k) (fun kv => ((), kv))
 /-- the transaction's current content (cursor creation and `Seek` cannot fail in either adapter
     in a way the callers observe: `IterateRange`, `Iterate` and `Drop` ignore `Seek`'s result) -/
 def snapshot : StoreM KVS := fun _ c => (.ok c.work, c)
+/-- the Go function returns without reaching `tx.Commit()` -/
+def noCommit : StoreM Unit := fun _ c => (.ok (), { c with skipCommit := true })
 
 end StoreM
 
@@ -111,10 +114,10 @@ end StoreM
 def withTx {α} (write : Bool) (body : StoreM α) (φ : Faults) (σ : KVS) : Res α × KVS × Bool × List Call :=
   if φ 0 then (.err .storeFault, σ, true, [.begin write])
   else
-    match body φ ⟨σ, 1, false, [.begin write]⟩ with
+    match body φ ⟨σ, 1, false, [.begin write], false⟩ with
     | (.err e, c) => (.err e, σ, c.fired, (.rollback :: c.trace).reverse)
     | (.ok a, c) =>
-      if write then
+      if write && !c.skipCommit then
         if φ c.tick then (.err .storeFault, σ, true, (.rollback :: .commit :: c.trace).reverse)
         else (.ok a, c.work, c.fired, (.commit :: c.trace).reverse)
       else (.ok a, σ, c.fired, (.rollback :: c.trace).reverse)
